@@ -48,6 +48,11 @@ func (r Response) EncodeHeader() ([]byte, error) {
 		}),
 	}
 	for name, value := range r.Header {
+		// The parser (decodeCborHeaders) rejects non-ASCII header names and
+		// values, so don't emit a bundle that cannot be read back.
+		if !isAscii(name) || !isAscii(normalizeHeaderValues(value)) {
+			return nil, fmt.Errorf("bundle: response header %q contains non-ASCII characters", name)
+		}
 		mes = append(mes,
 			cbor.GenerateMapEntry(func(keyE *cbor.Encoder, valueE *cbor.Encoder) {
 				keyE.EncodeByteString([]byte(strings.ToLower(name)))
